@@ -976,6 +976,20 @@ def _get(m, a, c):
     return some(it[i]) if 0 <= i < len(it) else NONE
 
 
+@reg("core::slice::<impl [T]>::get_mut")
+def _get_mut(m, a, c):
+    v = deref(a[0])
+    i = deref(a[1])
+    if isinstance(v, Term) or isinstance(i, Term):
+        raise Unsupported("get_mut on symbolic values")
+    if not (isinstance(i, int) and 0 <= i < len(v.items)):
+        return NONE
+    x = v.items[i]
+    if isinstance(x, (Adt, PyVec)) or type(x).__name__ in ("PyMap", "PySet"):
+        return some(x)          # mutable containers are shared by reference
+    return some(MutRef(lambda: v.items[i], lambda y: v.items.__setitem__(i, y)))
+
+
 @reg("core::slice::<impl [T]>::last_mut", "core::slice::<impl [T]>::first_mut")
 def _last_mut(m, a, c):
     v = deref(a[0])
@@ -1139,6 +1153,14 @@ def _iter_adapt(name):
             for x in xs:
                 out.extend(items_of(m.call_value(a[1], [x])))
             return PyIter(out)
+        if name == "find_map":
+            for x in xs:
+                r = deref(m.call_value(a[1], [x]))
+                if isinstance(r, Term):
+                    raise Unsupported("find_map with symbolic result")
+                if r.variant == "Some":
+                    return r
+            return NONE
         if name == "filter_map":
             out = []
             for x in xs:
@@ -1340,7 +1362,7 @@ def _iter_adapt(name):
     return h
 
 
-for _nm in ["enumerate", "rev", "map", "filter", "flat_map", "filter_map", "cloned", "copied", "chain", "zip",
+for _nm in ["enumerate", "rev", "map", "filter", "flat_map", "find_map", "filter_map", "cloned", "copied", "chain", "zip",
             "skip", "take", "take_while", "skip_while", "collect", "count", "sum", "all", "any", "fold", "for_each", "max", "min",
             "last", "unzip", "position", "find", "cmp", "partial_cmp", "eq", "ne", "by_ref", "peekable", "fuse", "max_by_key", "min_by_key", "try_fold", "try_for_each"]:
     TRAIT_TABLE[("std::iter::Iterator", _nm)] = _iter_adapt(_nm)
@@ -2462,6 +2484,14 @@ def _set_remove(m, a, c):
         return False
     s_.items.pop(i)
     return True
+
+
+@reg("<std::collections::BTreeSet<T, A> as std::iter::Extend<T>>::extend", "std::collections::BTreeSet::<T, A>::extend",
+     "<std::collections::HashSet<T, S, A> as std::iter::Extend<T>>::extend")
+def _set_extend(m, a, c):
+    for x in list(items_of(a[1])):
+        _set_insert(m, [a[0], x], c)
+    return ()
 
 
 @reg("std::collections::BTreeSet::<T, A>::is_empty", "std::collections::HashSet::<T, S, A>::is_empty")
